@@ -161,6 +161,7 @@ class Context(object):
         self.opaque = {}
         self.depth = 0
         self.temp_depth = 0
+        self.star_candidates = {}
         self.axioms = []
 
     # ---- solver -----------------------------------------------------------------------
@@ -350,6 +351,7 @@ class Context(object):
             self.pos = 0
             self.fresh_n = 0
             self.leaves = []
+            self.star_candidates = {}
             self.new_solver()
             self.path_index = n
             try:
@@ -491,6 +493,15 @@ def strip_fn(self, name, z, chars):
         self.assume(z3.InRe(l, z3.Star(cls)))
         self.assume(z3.InRe(m, z3.Union(z3.Re(z3.StringVal("")), z3.Concat(ncls, any_))))
         self.assume(z3.Or(z3.Length(m) == 0, z3.InRe(z3.SubString(m, 0, 1), ncls)))
+        if chars == "0" and name == "lstrip":
+            self.leading_zero_facts(cur, l, m)
+        seenR = set()
+        for R in reversed(self.star_candidates.get(str(cur), [])):
+            if str(R) in seenR or len(seenR) >= 4:
+                continue
+            seenR.add(str(R))
+            # substrings of a string all of whose characters are in a class are in that class too
+            self.assume(z3.Implies(z3.InRe(cur, R), z3.And(z3.InRe(l, R), z3.InRe(m, R))))
         cur = m
     if name in ("strip", "rstrip"):
         m = self.fresh("rstrip_m").z
@@ -516,16 +527,38 @@ def int_parse(self, I, z, base):
     else:
         raise OutOfReach("int() with base %r" % (base,))
     plain = z3.InRe(z, z3.Plus(digits))
-    if not self.branch(plain):
-        raise OutOfReach("int() of a string not known to consist of plain digits")
+    r = self.check(z3.Not(plain), timeout=self.budget.prove_ms)[0]
+    if r != "unsat" and self.try_cvc5(z3.Not(plain)) != "unsat":
+        if not self.branch(plain):
+            raise OutOfReach("int() of a string not known to consist of plain digits")
+    else:
+        self.assume(plain)
     if base == 10:
         # CPython >= 3.11: ValueError beyond sys.get_int_max_str_digits() (4300) decimal digits
         if not self.branch(z3.Length(z) <= 4300):
             raise PyRaise("ValueError", "Exceeds the limit (4300 digits) for integer string conversion")
-        r = z3.StrToInt(z)
-        self.assume(r >= 0)
-        return mk_int(r)
-    f = self.opaque_fn("hex_to_int", [z3.StringSort()], z3.IntSort())
+    return mk_int(self.int_value(z, base))
+
+
+@_ctx_method
+def int_value(self, z, base):
+    """Mathematical value of a non-empty digit string in the given base: an opaque function with
+    instances of true arithmetic facts (no digit limit: that is int()'s precondition, not the value's)."""
+    f = self.opaque_fn("intval%d" % base, [z3.StringSort()], z3.IntSort())
     r = f(z)
     self.assume(r >= 0)
-    return mk_int(r)
+    zero = z3.StringVal("0")
+    self.assume(z3.Implies(z == zero, r == 0))
+    # eight or more digits without a leading zero: at least 10**7 (16**7), beyond every code point
+    self.assume(z3.Implies(z3.And(z3.Length(z) >= 8, z3.SubString(z, 0, 1) != zero), r > 0x10FFFF))
+    if base == 10:
+        self.assume(z3.Implies(z3.Length(z) <= 7, r == z3.StrToInt(z)))
+    return r
+
+
+@_ctx_method
+def leading_zero_facts(self, whole, l, m):
+    """whole == l ++ m with l in '0'*: the value does not depend on leading zeros."""
+    for base in (10, 16):
+        f = self.opaque_fn("intval%d" % base, [z3.StringSort()], z3.IntSort())
+        self.assume(f(whole) == z3.If(z3.Length(m) == 0, z3.IntVal(0), f(m)))
